@@ -78,7 +78,20 @@ def extract_inputs(trace, entry):
     return vals
 
 
+_SEARCH = {}
+
+
 def replay(ROOT, REPO, BUILD, g, r, x, flags):
+    key = (g["name"], REPO)
+    if key not in _SEARCH:
+        _SEARCH[key] = search(ROOT, REPO, BUILD, g, flags)
+    st = _SEARCH[key]
+    if "why" in st:
+        return {"reproduced": False, "entry": g["replay"]["entry"], "why": st["why"]}
+    return match(ROOT, REPO, g, x, st)
+
+
+def search(ROOT, REPO, BUILD, g, flags):
     rp = g["replay"]
     bdir = os.path.join(BUILD, g["name"] + ".replay")
     shutil.rmtree(bdir, ignore_errors=True)
@@ -87,34 +100,69 @@ def replay(ROOT, REPO, BUILD, g, r, x, flags):
     fl = list(flags)
     if g.get("gen") == "base64u":
         fl.append("-I" + os.path.join(BUILD, g["name"], "gen"))
-    gb = os.path.join(bdir, "w.gb")
-    cmd = ["goto-cc"] + fl + ["-DVERIF_WITNESS"] + ["-D" + d for d in g.get("defs", [])] + \
-          ["-D" + d for d in rp.get("defs", [])] + ["--function", rp["entry"],
-          os.path.join(ROOT, "harness", g["harness"]), "-o", gb]
-    rc, o, e = _sh(cmd, 120)
-    if rc != 0:
-        note["why"] = "witness build failed: " + e[-400:]
-        return note
-    cmd = ["cbmc", gb, "--json-ui", "--trace", "--no-malloc-may-fail", "--drop-unused-functions",
-           "--bounds-check", "--pointer-check", "--pointer-overflow-check", "--div-by-zero-check",
-           "--undefined-shift-check", "--signed-overflow-check", "--unwind", str(rp.get("unwind", 12)),
-           "--object-bits", "12", "--sat-solver", "cadical"]
-    rc, o, e = _sh(["sh", "-c", "ulimit -s unlimited; exec \"$@\"", "sh"] + cmd, rp.get("timeout", 240))
-    if rc == -999:
-        note["why"] = "witness search timed out"
-        return note
-    try:
-        js = json.loads(o)
-    except Exception:
-        note["why"] = "witness search output unparsable"
-        return note
-    results = None
-    for it in js:
-        if "result" in it:
-            results = it["result"]
+    # optional enumeration of a compile-time constant (e.g. the datagram length): constant-size
+    # objects keep the bounded search cheap; variants run in parallel
+    variants = [[]]
+    if rp.get("enum"):
+        k, vals = list(rp["enum"].items())[0]
+        variants = [["%s=%s" % (k, v)] for v in vals]
+
+    def one(vdefs):
+        tag = "_".join(vdefs).replace("=", "") or "w"
+        gb = os.path.join(bdir, tag + ".gb")
+        cmd = ["goto-cc"] + fl + ["-DVERIF_WITNESS"] + ["-D" + d for d in g.get("defs", [])] + \
+              ["-D" + d for d in rp.get("defs", [])] + ["-D" + d for d in vdefs] + ["--function", rp["entry"],
+              os.path.join(ROOT, "harness", g["harness"]), "-o", gb]
+        rc, o, e = _sh(cmd, 120)
+        if rc != 0:
+            return "witness build failed: " + e[-400:], None
+        cmd = ["cbmc", gb, "--json-ui", "--trace", "--no-malloc-may-fail", "--drop-unused-functions",
+               "--bounds-check", "--pointer-check", "--div-by-zero-check",
+               "--undefined-shift-check", "--signed-overflow-check", "--unwind", str(rp.get("unwind", 12)),
+               "--object-bits", "12", "--sat-solver", "cadical"]
+        rc, o, e = _sh(["sh", "-c", "ulimit -s unlimited; exec \"$@\"", "sh"] + cmd, rp.get("timeout", 240))
+        if rc == -999:
+            return "witness search timed out", None
+        try:
+            js = json.loads(o)
+        except Exception:
+            return "witness search output unparsable", None
+        for it in js:
+            if "result" in it:
+                return None, it["result"]
+        return "witness search gave no result", None
+
+    from concurrent.futures import ThreadPoolExecutor
+    with ThreadPoolExecutor(max_workers=8) as ex:
+        outs = list(ex.map(one, variants))
+    results = []
+    whys = []
+    for why, res in outs:
+        if res:
+            results += res
+        elif why:
+            whys.append(why)
     if not results:
-        note["why"] = "witness search gave no result"
+        note["why"] = "; ".join(sorted(set(whys))) or "witness search gave no result"
         return note
+    cands = [p for p in results if p["status"] == "FAILURE" and p.get("trace") and
+             p["property"].split(".")[-2:-1] != ["unwind"]]
+    if not cands:
+        note["why"] = "bounded witness search (unwind %s) found no failing input" % rp.get("unwind", 12)
+        return note
+    exe, err = native_build(ROOT, REPO, bdir, g, fl, rp)
+    if not exe:
+        note["why"] = "native replay build failed: " + err[-400:]
+        return note
+    return {"cands": cands, "exe": exe, "bdir": bdir, "native": {}}
+
+
+def match(ROOT, REPO, g, x, st):
+    rp = g["replay"]
+    note = {"reproduced": False, "entry": rp["entry"]}
+    results = st["cands"]
+    exe, bdir = st["exe"], st["bdir"]
+
     # candidates: failing properties of the same kind, best match first
     def score(p):
         sl = p.get("sourceLocation", {})
@@ -129,24 +177,17 @@ def replay(ROOT, REPO, BUILD, g, r, x, flags):
         if "WIT_CHECK" in p.get("description", "") and x["cls"] in ("postcondition", "loop_invariant_step", "loop_invariant_base", "assertion", "precondition", "assigns"):
             s += 3
         return s
-    cands = [p for p in results if p["status"] == "FAILURE" and p.get("trace") and
-             p["property"].split(".")[-2:-1] != ["unwind"]]
-    cands.sort(key=score, reverse=True)
-    if not cands:
-        note["why"] = "bounded witness search (unwind %s) found no failing input" % rp.get("unwind", 12)
-        return note
-    exe, err = native_build(ROOT, REPO, bdir, g, fl, rp)
-    if not exe:
-        note["why"] = "native replay build failed: " + err[-400:]
-        return note
+    cands = sorted(results, key=score, reverse=True)
     tried = []
     for p in cands[:4]:
         vals = extract_inputs(p["trace"], rp["entry"])
-        ipath = os.path.join(bdir, "inputs.txt")
-        with open(ipath, "w") as f:
-            for k, v in vals.items():
-                f.write(k + " " + " ".join(str(t) for t in v) + "\n")
-        res = native_run(exe, ipath)
+        if p["property"] not in st["native"]:
+            ipath = os.path.join(bdir, "inputs.txt")
+            with open(ipath, "w") as f:
+                for k, v in vals.items():
+                    f.write(k + " " + " ".join(str(t) for t in v) + "\n")
+            st["native"][p["property"]] = native_run(exe, ipath)
+        res = st["native"][p["property"]]
         tried.append({"witness_property": p["property"], "witness_desc": p.get("description", "")[:200], "native": res["verdict"]})
         if res["verdict"] in ("clause-failed", "sanitizer"):
             note.update({"reproduced": True, "inputs": vals, "native_verdict": res["verdict"],
